@@ -8,15 +8,15 @@ LEVEL = "fault_enumeration"
 NEEDS = {"lib": ["dev", "release"], "cli": ["dev", "release"], "interposer": True}
 RULE = ("`hdwallet new -n L [--vanity-prefix P -j N]` process runs with the OS entropy boundary observed three ways: (1) LD_PRELOAD "
         "interposer on getentropy/getrandom that logs every call and scripts the returned bytes (zeros, ones, every single bit, "
-        "counter, PRNG) - the printed phrase must be the reference encoding of exactly the buffer served; (2) the same interposer "
+        "counter, PRNG) - the printed phrase's entropy must be a byte-aligned slice of what was served to that run; (2) the same interposer "
         "failing the k-th request (k = 1 for plain generation; k in {1,2,3,10,40} and 'every request from k on' during vanity "
         "searches with -j 0/1/4) - the run must end non-zero with empty stdout unless a match from an earlier successful buffer "
-        "was printed; (3) strace at the kernel boundary on unscripted runs - the phrase's entropy must be byte-for-byte one "
-        "getrandom(2)/urandom result of length L*4/3 and pairwise distinct across invocations; library mnemonic.random with the "
+        "was printed; (3) strace at the kernel boundary on unscripted runs - the phrase's entropy must be byte-for-byte (a slice of) what "
+        "getrandom(2)/urandom returned to that process and pairwise distinct across invocations; library mnemonic.random with the "
         "in-process getentropy override; lengths 0..40. distinct = distinct (arguments, script); non-trivial = provenance compared")
 LEGAL = bip39.LEGAL_COUNTS
 REQUIRED = (["scripted-%s-L%d" % (m, l) for m in ("zero", "ones", "prng") for l in LEGAL] + ["scripted-single-bit", "scripted-counter",
-            "plain-exactly-one-request", "fail-plain-L%d" % 12, "fail-plain-L24", "fail-vanity-error-exit", "fail-vanity-j0", "fail-vanity-j1",
+            "plain-provenance", "fail-plain-L%d" % 12, "fail-plain-L24", "fail-vanity-error-exit", "fail-vanity-j0", "fail-vanity-j1",
             "fail-vanity-j4", "fail-from-k-terminates", "kernel-provenance", "kernel-distinct-across-invocations", "reparse-by-tool",
             "lib-scripted", "lib-fail", "lib-illegal-length-refused", "vanity-provenance"]
             + ["illegal-length-%d-refused" % l for l in range(0, 41) if l not in LEGAL])
@@ -33,6 +33,26 @@ def _phrase_entropy(stdout):
 
 def _good_E(o):
     return [r for r in o.get("entropy", []) if r["tag"] == "E"]
+
+
+def _from_served(ent_hex, bufs):
+    """Provenance: the entropy is a byte-aligned slice of what the source successfully served - of one buffer, or of the served
+    buffers concatenated in request order (a tool may ask for more bytes than it needs, or fetch them in several requests; the
+    property only demands that every entropy byte is a byte the source returned for that generation)."""
+    def inside(hay):
+        i = hay.find(ent_hex)
+        while i >= 0:
+            if i % 2 == 0:
+                return True
+            i = hay.find(ent_hex, i + 1)
+        return False
+    return any(inside(b) for b in bufs) or (len(bufs) > 1 and len(bufs) <= 64 and inside("".join(bufs)))
+
+
+def _from_served_records(ent_hex, recs):
+    """The same for interposer records, which carry the requesting thread: slices of one thread's served stream count."""
+    from ..run.core import attribute_entropy
+    return attribute_entropy(ent_hex, recs) is not None
 
 
 def judge_scripted(case, obs):
@@ -55,15 +75,13 @@ def judge_scripted(case, obs):
         v.nontrivial = False
         return v.bucket("no-entropy-call-seen-by-interposer")
     served = [r for r in E if r["ret"] == 0]
-    if len(E) != 1:
-        v.bad("C12/scripted-L%d/request-count" % L, "plain generation made %d entropy requests, expected exactly one" % len(E))
-    if any(r["len"] != bip39.ENT_BYTES[L] for r in E):
-        v.bad("C12/scripted-L%d/request-length" % L, "entropy request of %s bytes for a %d-word phrase (needs %d)" % ([r["len"] for r in E], L, bip39.ENT_BYTES[L]))
-    if ent.hex() not in [r["bytes"] for r in served]:
+    if not _from_served(ent.hex(), [r["bytes"] for r in served]):
         v.bad("C12/scripted-L%d/not-the-served-bytes" % L,
               "the phrase encodes %s but the entropy source served %s" % (ent.hex(), [r["bytes"] for r in served][:3]))
     if v.viol:
         return v
+    # informational (not demanded by the property): the shape of the requests
+    v.bucket("plain-one-request-of-exact-length" if len(E) == 1 and E[0]["len"] == bip39.ENT_BYTES[L] else "plain-other-request-shape")
     if len(obs) > 1:
         a = obs[1]
         if abnormal(a) or "exit" not in a:
@@ -71,7 +89,7 @@ def judge_scripted(case, obs):
         if a["exit"] != 0:
             return v.bad("C12/scripted-L%d/tool-rejects-own-phrase" % L, "the tool cannot parse back its own phrase: %s" % a["stderr"][-150:])
         v.bucket("reparse-by-tool")
-    v.bucket("plain-exactly-one-request")
+    v.bucket("plain-provenance")
     mode = xm["mode"]
     if mode in ("zero", "ones", "prng"):
         v.bucket("scripted-%s-L%d" % (mode, L))
@@ -122,9 +140,18 @@ def judge_fail(case, obs):
             words, ent = _phrase_entropy(o["stdout"])
         except ValueError as e:
             return v.bad("C12/%s/invalid-phrase" % tagbase, "printed phrase is invalid (%s)" % e)
-        if ent.hex() not in [r["bytes"] for r in E if r["ret"] == 0] or len(words) != xm["L"]:
+        from ..run.core import attribute_entropy
+        att = attribute_entropy(ent.hex(), [r for r in E if r["ret"] == 0])
+        if att is None or len(words) != xm["L"]:
             return v.bad("C12/%s/not-from-a-served-buffer" % tagbase,
                          "a request failed and the printed phrase encodes %s, which no successful entropy request served" % ent.hex())
+        first_fail = min(r["seq"] for r in failed)
+        if case["steps"][0]["cli"]["ent"].get("POSTFAIL_DELAY") and att["seq_last"] is not None and att["seq_last"] > first_fail:
+            # every request after the reported failure was held back for seconds, so the tool knew about the failure long before
+            # it was handed this entropy: it swallowed the error and went on
+            return v.bad("C12/%s/phrase-from-entropy-served-after-the-failure" % tagbase,
+                         "request %d reported failure (errno %s); the printed phrase is built from request %d, served seconds later: the failure was swallowed (-j %s)" % (
+                             first_fail, case["steps"][0]["cli"]["ent"].get("ERRNO", 5), att["seq_last"], xm.get("j")))
         if not xm.get("vanity"):
             # plain generation makes one request; it reported failure, so there must be no phrase (a silent retry hides the
             # failure the property wants reported)
@@ -166,9 +193,9 @@ def judge_kernel(case, obs):
         if not o.get("syscalls"):
             v.nontrivial = False
             return v.bucket("no-random-syscall-seen")
-        if ent.hex() not in [s["bytes"] for s in sc if s["len"] == len(ent)]:
+        if not _from_served(ent.hex(), [s["bytes"] for s in sc]):
             return v.bad("C12/kernel-L%d/not-os-entropy" % L,
-                         "the phrase encodes %s, which is not the result of any getrandom/urandom request of %d bytes (%s)" % (
+                         "the phrase encodes %s, which is not (a slice of) the result of the getrandom/urandom requests, %d bytes needed (%s)" % (
                              ent.hex(), len(ent), [(s["len"], s["bytes"][:16]) for s in sc][:4]))
         ents.append(ent)
     if len(set(ents)) != len(ents):
@@ -198,10 +225,8 @@ def judge_vanity(case, obs):
     if not E:
         v.nontrivial = False
         return v.bucket("no-entropy-call-seen-by-interposer")
-    if any(r["len"] != bip39.ENT_BYTES[xm["L"]] for r in E):
-        return v.bad("C12/vanity/request-length", "entropy requests of %s bytes for %d-word phrases" % (sorted({r["len"] for r in E}), xm["L"]))
     served = [r["bytes"] for r in E if r["ret"] == 0]
-    if len(words) != xm["L"] or ent.hex() not in served:
+    if len(words) != xm["L"] or not _from_served_records(ent.hex(), [r for r in E if r["ret"] == 0]):
         return v.bad("C12/vanity/not-a-served-buffer", "printed phrase (%d words) encodes %s, not one of the %d served buffers" % (len(words), ent.hex(), len(served)))
     if len(set(served)) != len(served):
         v.bucket("script-repeated-a-buffer")
@@ -231,15 +256,17 @@ def judge_lib(case, obs):
         return v.bucket("lib-fail")
     if "ok" not in o:
         return v.bad("C12/lib-L%d/failed" % L, "Mnemonic::random(%d) failed: %s" % (L, o.get("err")))
-    if len(calls) != 1 or calls[0]["len"] != nb:
-        return v.bad("C12/lib-L%d/requests" % L, "entropy requests %s, expected one of %d bytes" % ([(c["len"], c["ret"]) for c in calls], nb))
-    want = " ".join(bip39.encode(bytes.fromhex(calls[0]["bytes"])))
-    if o["ok"]["phrase"] != want or o["ok"]["length"] != L:
-        return v.bad("C12/lib-L%d/not-the-served-bytes" % L, "phrase %r is not the encoding of the served bytes %s" % (o["ok"]["phrase"][:50], calls[0]["bytes"]))
-    if o["ok"]["reparse"].get("ok") != want:
+    served = [c["bytes"] for c in calls if c["ret"] == 0]
+    try:
+        got_words = o["ok"]["phrase"].split(" ")
+        ent = bip39.decode_words(got_words)
+    except ValueError as e:
+        return v.bad("C12/lib-L%d/invalid-phrase" % L, "Mnemonic::random(%d) returned an invalid phrase (%s)" % (L, e))
+    if len(got_words) != L or o["ok"]["length"] != L or len(ent) != nb or not _from_served(ent.hex(), served):
+        return v.bad("C12/lib-L%d/not-the-served-bytes" % L, "phrase %r is not the encoding of served bytes %s" % (o["ok"]["phrase"][:50], served[:3]))
+    if o["ok"]["reparse"].get("ok") != o["ok"]["phrase"]:
         return v.bad("C12/lib-L%d/reparse" % L, "generated phrase does not parse back")
-    if req.get("entropy") and calls[0]["bytes"] != req["entropy"][:2 * nb]:
-        return v.bad("C12/lib-L%d/harness" % L, "script mismatch")
+    v.bucket("lib-one-request-of-exact-length" if len(calls) == 1 and calls[0]["len"] == nb else "lib-other-request-shape")
     return v.bucket("lib-scripted")
 
 
@@ -325,10 +352,23 @@ def gen(shard, rng, tier):
                         from ..run.core import vanity_cap
                         ent = {"MODE": "prng", "SEED": rng.randrange(2**62), "CAP": vanity_cap(2, j)}
                         ent["FAIL_FROM" if frm else "FAIL_AT"] = k
+                        ent["POSTFAIL_DELAY"] = 5000000
                         if rng.random() < 0.4:
                             ent["ERRNO"] = rng.choice([4, 11, 14, 38])
                         yield {"j": "fail", "profile": "release", "x": {"cls": "fail-vanity", "L": L, "vanity": True, "j": j, "k": k, "from": frm, "prefix": prefix},
                                "steps": [{"cli": {"argv": ["new", "-n", str(L), "--vanity-prefix", prefix, "-j", str(j)], "ent": ent, "timeout": 300}}]}
+            # one transient failure in the middle of a search with several workers: the failing worker's error must end the run
+            # (whichever worker is luckier afterwards), unless a match from entropy served before the fault wins the race
+            for j, k in ((2, 2), (2, 5), (4, 3), (4, 9), (16, 4), (16, 20), (64, 30)):
+                if (j + k + shard["idx"]) % 3:
+                    continue
+                L = rng.choice(LEGAL)
+                prefix = "0x" + "".join(rng.choice("0123456789abcdefABCDEF") for _ in range(3))
+                from ..run.core import vanity_cap
+                ent = {"MODE": "prng", "SEED": rng.randrange(2**62), "CAP": vanity_cap(3, j), "FAIL_AT": k, "POSTFAIL_DELAY": 5000000,
+                       "ERRNO": rng.choice([5, 4, 11])}
+                yield {"j": "fail", "profile": "release", "x": {"cls": "fail-vanity", "L": L, "vanity": True, "j": j, "k": k, "from": False, "prefix": prefix, "transient": True},
+                       "steps": [{"cli": {"argv": ["new", "-n", str(L), "--vanity-prefix", prefix, "-j", str(j)], "ent": ent, "timeout": 600}}]}
     elif name.startswith("vanity-prov-"):
         for _ in range(shard["count"]):
             L = rng.choice(LEGAL)
